@@ -231,39 +231,61 @@ class Registry:
         self._unsup('dict.update', line)
 
     def dictcomp(self, eng, n, fr, q):
+        """{key: value for x in coll if ...}: a fresh dict with
+        (1) has[k] for every selected element's key k,
+        (2) every key comes from a selected element whose value it holds; for a list source that element is the LAST
+            selected one with this key (later occurrences overwrite), which exists because lists are finite,
+        (3) list source: insertion order = order of first occurrence (order ghost, see Interp.dict_order)."""
         _, vars_, guard, elt, coll = q
         k, v = elt
-        d = eng.new_dict(eng.value_type(k), eng.value_type(v))
-        kt = eng.coerce_term(k, d.kty)
+        kty, vty = eng.value_type(k), eng.value_type(v)
+        if isinstance(kty, TOpt) or kty in (NONE, ANY) or vty in (NONE, ANY):
+            raise Unsupported('dict comprehension with None / untyped keys or values')
+        d = eng.new_dict(kty, vty)
+        kt = eng.coerce_term(k, kty)
+        vt = eng.coerce_term(eng.materialize(v, vty), vty)
         if len(vars_) == 1 and z3.eq(kt, vars_[0]) and not isinstance(coll, ListV):
             # exact summary when the key of the new dict is the iteration variable of a dict / set (pairwise distinct
             # keys): present exactly where the guard holds, with the value expression of that key
             hn, ha = eng.dict_has(d)
             eng.heap.set(hn, z3.Store(ha, d.ref, eng.def_array(vars_, guard)))
             vn, va = eng.dict_val(d)
-            eng.heap.set(vn, z3.Store(va, d.ref, eng.def_array(vars_, eng.coerce_term(eng.materialize(v, d.vty), d.vty))))
+            eng.heap.set(vn, z3.Store(va, d.ref, eng.def_array(vars_, vt)))
             eng._dict_order_havoc(d)
             return d
         hn, ha = eng.dict_has(d)
-        vn, va = eng.dict_val(d)
-        if len(vars_) == 1 and isinstance(k, SV) and k.t.eq(vars_[0]) and isinstance(coll, (DictV, ValuesView)):
-            # exact summary when the key of the new dict is the iterated key of the source dict (keys are then
-            # distinct): has'[k] <=> k in source and the filter holds; val'[k] = the value expression at k
-            eng.heap.set(hn, z3.Store(ha, d.ref, eng.def_array(vars_, guard)))
-            eng.heap.set(vn, z3.Store(va, d.ref, eng.def_array(vars_, eng.coerce_term(eng.materialize(v, d.vty), d.vty))))
-            return d
-        # over-approximation: a fresh dict of the right types (the element expressions were evaluated for a generic
-        # element, so their safety obligations are generated); a key is present iff some selected element produces it,
-        # and its value is the value produced by SOME selected element with that key (python: the last one)
         has = eng.run.fresh('dc_has', ha[d.ref].sort())
         eng.heap.set(hn, z3.Store(ha, d.ref, has))
+        vn, va = eng.dict_val(d)
         val = eng.run.fresh('dc_val', va[d.ref].sort())
         eng.heap.set(vn, z3.Store(va, d.ref, val))
-        kt, vt = eng.coerce_term(k, d.kty), eng.coerce_term(eng.materialize(v, d.vty), d.vty)
-        key = z3.Const('key!dc', sort_of(d.kty))
-        eng.run.assume(z3.ForAll([key], has[key] == z3.Exists(vars_, z3.And(guard, kt == key))), silent=True)
-        eng.run.assume(z3.ForAll([key], z3.Implies(has[key], z3.Exists(vars_, z3.And(guard, kt == key, val[key] == vt)))),
-                       silent=True)
+        y = z3.Const('y!dc', sort_of(kty))
+        eng.run.assume(z3.ForAll(vars_, z3.Implies(guard, has[kt])), silent=True)
+        is_list = isinstance(coll, ListV) and len(vars_) == 1
+        if is_list:
+            i = vars_[0]
+            i2 = z3.Const('i2!dc', I)
+            later = z3.ForAll([i2], z3.Implies(z3.And(i2 > i, z3.substitute(guard, (i, i2))), z3.substitute(kt, (i, i2)) != y))
+            eng.run.assume(z3.ForAll([y], z3.Implies(has[y], z3.Exists([i], z3.And(guard, kt == y, val[y] == vt, later)))), silent=True)
+            # order of first occurrence: pos maps a selected source index to the position of its key; positions follow the
+            # first occurrences monotonically
+            row = eng.run.fresh('dc_ord', arr(I, sort_of(kty)))
+            length = eng.run.fresh('dc_olen', I)
+            eng.dict_order_set(d, row, length)
+            first = eng.run.fresh('dc_first', arr(I, I))    # position -> source index of the first occurrence of that key
+            j, j2 = z3.Const('j!dc', I), z3.Const('j2!dc', I)
+            gf = z3.substitute(guard, (i, first[j]))
+            kf = z3.substitute(kt, (i, first[j]))
+            eng.run.assume(length >= 0, silent=True)
+            eng.run.assume(z3.ForAll([j], z3.Implies(z3.And(0 <= j, j < length), z3.And(
+                gf, kf == row[j],
+                z3.ForAll([i2], z3.Implies(z3.And(i2 < first[j], z3.substitute(guard, (i, i2))), z3.substitute(kt, (i, i2)) != row[j]))))),
+                silent=True)
+            eng.run.assume(z3.ForAll([j, j2], z3.Implies(z3.And(0 <= j, j < j2, j2 < length), first[j] < first[j2])), silent=True)
+            eng.run.assume(z3.ForAll([i], z3.Implies(guard, z3.Exists([j], z3.And(0 <= j, j < length, row[j] == kt)))), silent=True)
+        else:
+            eng.run.assume(z3.ForAll([y], z3.Implies(has[y], z3.Exists(vars_, z3.And(guard, kt == y, val[y] == vt)))), silent=True)
+            eng._dict_order_havoc(d)
         return d
 
     def set_pop(self, eng, s, line):
